@@ -50,6 +50,7 @@ type Prog struct {
 	fieldStores map[fieldKey][]*ssa.Store
 	fieldStoresOK bool
 	fnKeyMemo map[string]*ssa.Function
+	chanUsesMemo []chanUse
 	noRet map[*ssa.BasicBlock]bool
 }
 
